@@ -14,6 +14,8 @@ suite=""
 if [ $SUITE = 1 ]; then
   if (cd /repo && CARGO_NET_OFFLINE=true cargo test --workspace --no-fail-fast --offline >/tmp/mutate_suite.log 2>&1); then suite=" suite=pass"; else suite=" suite=FAIL"; fi
 fi
-out=$(cd /verif && ./check "$ID" "$TIER" 2>&1); code=$?
+# evidence of a run on a patched tree must never replace the committed evidence
+out=$(cd /verif && VERIF_EVIDENCE_SUFFIX=".mutant" ./check "$ID" "$TIER" 2>&1); code=$?
+rm -f /verif/evidence/*.mutant.json
 echo "$out" | grep -E "VIOLATION|signature|KNOWN|INCONCLUSIVE|held on|violation\(s\)" | head -8
 echo "MUTANT $(basename "$PATCH") $ID $TIER: exit=$code$suite"
